@@ -1105,8 +1105,30 @@ def merge_name_aliases(fnode, base_names, stats):
       x, y = st.targets[0].id, st.value.id
       if x == y or y in base_names or y in params or x in params or x not in base_names:
         continue
-      if b is not fnode.body:
-        continue       # only straight-line code of the function body: every later use is dominated by the alias
+      if b is not fnode.body or sum(1 for n in ast.walk(fnode) if isinstance(n, ast.Name) and n.id == x and isinstance(n.ctx, (ast.Store, ast.Del))) != 1:
+        # inside a nested block, or x bound elsewhere too: y is bound once, earlier in the SAME block, x is not touched and nothing is called in between,
+        # and y is not used after the alias -- binding x where y was bound is then indistinguishable
+        i2 = b.index(st)
+        ystore = [n for n in ast.walk(fnode) if isinstance(n, ast.Name) and n.id == y and isinstance(n.ctx, (ast.Store, ast.Del))]
+        i1 = [i for i, s_ in enumerate(b[:i2]) if any(n is m_ for m_ in ast.walk(s_) for n in ystore)]
+        if len(ystore) != 1 or len(i1) != 1 or not isinstance(b[i1[0]], ast.Assign):
+          continue
+        between = [n for s_ in b[i1[0] + 1:i2] for n in ast.walk(s_)]
+        if any(isinstance(n, ast.Name) and n.id == x for n in between) or any(isinstance(n, (ast.Call, ast.Yield, ast.YieldFrom, ast.Await, ast.Raise)) for n in between):
+          continue
+        if any(isinstance(n, ast.Name) and n.id == x for n in ast.walk(b[i1[0]].value)):
+          continue
+        yloads = [n for n in ast.walk(fnode) if isinstance(n, ast.Name) and n.id == y and isinstance(n.ctx, ast.Load)]
+        inside = set(id(n) for s_ in b[i1[0] + 1:i2 + 1] for n in ast.walk(s_))
+        if any(id(n) not in inside for n in yloads):
+          continue
+        if any(isinstance(n, (ast.Global, ast.Nonlocal)) and (x in n.names or y in n.names) for n in ast.walk(fnode)):
+          continue
+        for n in ystore + yloads:
+          n.id = x
+        b.remove(st)
+        stats['aliases_merged'] = stats.get('aliases_merged', 0) + 1
+        return merge_name_aliases(fnode, base_names, stats)
       xs = [n for n in ast.walk(fnode) if isinstance(n, ast.Name) and n.id == x]
       ys = [n for n in ast.walk(fnode) if isinstance(n, ast.Name) and n.id == y]
       if sum(1 for n in xs if isinstance(n.ctx, (ast.Store, ast.Del))) != 1:
@@ -2657,6 +2679,10 @@ def rename_function(fnode, rel, qualname, base_funcs, stats):
     stats['while_error'] = repr(e)
   try:
     split_new_tuple_assigns(fnode, set(base.get('tuple_assigns', [])), stats)
+    # `a, b = helper()` inlined and split leaves `a = a__h; b = b__h`: the helper's locals are the caller's names from there on
+    bn_ = set(base.get('params', [])) | set(b_[0] for b_ in base.get('locals', []))
+    bn_ |= set(nm_ for n_ in own_nodes(fnode) if isinstance(n_, (ast.Nonlocal, ast.Global)) for nm_ in n_.names)
+    merge_name_aliases(fnode, bn_, stats)
   except Exception as e:
     stats['tuple_error'] = repr(e)
   try:
